@@ -4,11 +4,13 @@ package bondgo
 
 // Verification hooks (build tag "verif" only). VerifHook, when set, is called just before the
 // channel operations of the compiler's internal goroutines:
-//   "assigner-answer"  Var_assigner is about to answer a request
-//   "assigner-notify"  Var_assigner is about to notify the usage monitor
-//   "assigner-exit"    Var_assigner received REQ_EXIT
-//   "monitor-recv"     Usage_Monitor received a notification
-//   "monitor-exit"     Usage_Monitor received TR_EXIT
+//
+//	"assigner-answer"  Var_assigner is about to answer a request
+//	"assigner-notify"  Var_assigner is about to notify the usage monitor
+//	"assigner-exit"    Var_assigner received REQ_EXIT
+//	"monitor-recv"     Usage_Monitor received a notification
+//	"monitor-exit"     Usage_Monitor received TR_EXIT
+//
 // and, through VerifPoint, at points of cmd/bondgo ("main-exit-monitor", "main-exit-assigner",
 // "main-done").
 var VerifHook func(point string)
